@@ -193,6 +193,10 @@ def run(ctx):
     c06.append_obligations(ctx, 'C10.fresh', only=('fresh-constant', 'fresh-world'))
     ctx.replayers['C10.fresh.'] = c06.replay_history
     c06.bounded_histories(ctx, 'C10.fresh', depth=3)
+    # instantiation is symbol-independent: substitution replaces exactly the occurrences of the bound variable, whatever the
+    # coordinates of the other symbols (C15's substitute / unquantify obligations under C10 names)
+    from checks import c15
+    ctx.restate(c15.run, 'C15.', 'C10.subst.', keep=lambda n: 'substitute' in n or 'unquantify' in n or 'rshift' in n)
     bounded_meta(ctx)
     ctx.replayers['C10.'] = lambda r: dict(reproduced=None, detail='see counterexample / meta')
 
